@@ -30,6 +30,10 @@ type descriptor struct {
 	// the SAME fork and join gateways are activated again (their bookkeeping of
 	// the previous activation must not leak into the next)
 	Loop int `json:"loop,omitempty"`
+	// Raw: bit i set = the condition of branch i cannot be evaluated to a boolean
+	// (unknown variable / non-boolean / foreign syntax): it is not true, and the
+	// conditions listed after it are still evaluated
+	Raw int `json:"raw,omitempty"`
 }
 
 func task() *gen.Block { return &gen.Block{K: "task", Def: -1} }
@@ -42,7 +46,11 @@ func buildAST(d descriptor, vars map[string]any) *gen.Block {
 		for i := 0; i < d.NB; i++ {
 			v := fmt.Sprintf("c%d_%d", rep, i)
 			vars[v] = d.Mask&(1<<i) != 0
-			inc.Conds = append(inc.Conds, gen.BoolVar(v))
+			if d.Raw&(1<<i) != 0 {
+				inc.Conds = append(inc.Conds, gen.Raw([]string{"undefinedVariable9 > 1", "1 + 1", "${x}"}[i%3]))
+			} else {
+				inc.Conds = append(inc.Conds, gen.BoolVar(v))
+			}
 			body := 0
 			if i < len(d.Body) {
 				body = d.Body[i]
@@ -139,7 +147,7 @@ func run(t interface{ Fatalf(string, ...any) }, test string, d *descriptor, pick
 	c := &drive.Case{Prog: ast, Lang: d.Lang, Vars: vars, Answers: loopAnswers(*d, ast), Schedule: d.Schedule, DeclSeed: d.DeclSeed}
 	hash := rec.Hash(d)
 	rec.Begin(test, hash, d)
-	out := drive.RunLockstep(c, pick, nil)
+	out := drive.RunLockstep(c, pick, &drive.Hooks{AllowOtherErrors: d.Raw != 0})
 	if out.Inconcl != "" {
 		rec.End(hash, "inconclusive")
 		rec.Inconclusive(test, out.Inconcl)
@@ -166,7 +174,7 @@ func replayIfAsked(t *testing.T) bool {
 	vars := map[string]any{}
 	ast := buildAST(rd, vars)
 	c := &drive.Case{Prog: ast, Lang: rd.Lang, Vars: vars, Answers: loopAnswers(rd, ast), Schedule: rd.Schedule, DeclSeed: rd.DeclSeed}
-	out := drive.RunLockstep(c, nil, nil)
+	out := drive.RunLockstep(c, nil, &drive.Hooks{AllowOtherErrors: rd.Raw != 0})
 	if out.Symptom != "" {
 		fmt.Printf("REPRODUCED %s: %s\n", out.Symptom, out.Detail)
 		t.Fatalf("%s", out.Symptom)
@@ -266,6 +274,13 @@ func TestC05Random(t *testing.T) {
 			d.EarlyEnd = append(d.EarlyEnd, rapid.Bool().Draw(rt, "early"))
 		}
 		d.Order = rapid.Permutation(seq(nb)).Draw(rt, "order")
+		if rapid.IntRange(0, 3).Draw(rt, "unevaluable") == 0 {
+			d.Raw = rapid.IntRange(1, 1<<nb-1).Draw(rt, "raw")
+			if d.Def >= 0 {
+				d.Raw &^= 1 << d.Def
+			}
+			d.Mask &^= d.Raw // an unevaluable condition is not true
+		}
 		pick := func(n int) int {
 			v := rapid.IntRange(0, n-1).Draw(rt, "pick")
 			d.Schedule = append(d.Schedule, v)
@@ -275,6 +290,9 @@ func TestC05Random(t *testing.T) {
 		cls := []string{fmt.Sprintf("nb=%d", nb), "lang=" + d.Lang, fmt.Sprintf("repeat=%d", d.Repeat), fmt.Sprintf("activated=%d", activated(d))}
 		if d.Loop > 0 {
 			cls = append(cls, "gatewaysReentered")
+		}
+		if d.Raw != 0 {
+			cls = append(cls, "unevaluableCondition")
 		}
 		if out.Stuck {
 			cls = append(cls, "no-effective-flow")
